@@ -2,8 +2,8 @@ package genlint
 
 import (
 	"go/ast"
-	"go/types"
 	"go/token"
+	"go/types"
 
 	"cffverif/internal/astx"
 )
@@ -289,14 +289,17 @@ func (c *ctx) sharesFieldWith(d *ast.FuncDecl, checks []*ast.FuncDecl) bool {
 	info := c.inter.TypesInfo
 	written := map[interface{}]bool{}
 	for _, ch := range checks {
-		astx.Writes(ch.Body, func(l ast.Expr, at ast.Node) {
-			e := astx.Unparen(l)
-			if ix, ok := e.(*ast.IndexExpr); ok {
-				e = ix.X
-			}
-			if _, f, ok := astx.FieldSel(info, e); ok {
-				written[f] = true
-			}
+		// in the check itself, or in a helper it records its finding through (`g.noteHidden(name, err)`)
+		c.eachReachedBody(ch, 1, func(body *ast.BlockStmt) {
+			astx.Writes(body, func(l ast.Expr, at ast.Node) {
+				e := astx.Unparen(l)
+				if ix, ok := e.(*ast.IndexExpr); ok {
+					e = ix.X
+				}
+				if _, f, ok := astx.FieldSel(info, e); ok {
+					written[f] = true
+				}
+			})
 		})
 	}
 	found := false
